@@ -21,7 +21,9 @@ void r_is(void) { init(); U(RG_IS3) RG_IS3_T0 m3; RG_IS2_T0 m2;
 void r_is_values(void) { init(); U(RG_IS_VALUES) RG_IS_VALUES_T0 m; int v0 = nondet_int(), v1 = nondet_int(), v2 = nondet_int(); m.value._0 = v0; m.value._1 = v1; m.value._2 = v2;
   __CPROVER_assert(RG_IS_VALUES(&m, &u) == (arr.a[0] == v0 && arr.a[1] == v1 && arr.a[2] == v2), "[C11] POST range_is_with_plain_values_compares_element_wise");
   __CPROVER_assert(0, "REACH! r_is_values"); }
-void r_starts_ends(void) { init(); U(RG_STARTS2) RG_STARTS2_T0 s; RG_ENDS2_T0 e;
+void r_starts_ends(void) { init(); U(RG_STARTS2) RG_STARTS2_T0 s; RG_ENDS2_T0 e; RG_STARTS3_T0 s3; RG_ENDS3_T0 e3;
+  __CPROVER_assert(RG_STARTS3(&s3, &u) == (ans[1][0] && ans[2][1] && ans[3][2]), "[C11] POST range_starts_with_accepts_a_range_of_exactly_the_listed_length");
+  __CPROVER_assert(RG_ENDS3(&e3, &u) == (ans[1][0] && ans[2][1] && ans[3][2]), "[C11] POST range_ends_with_accepts_a_range_of_exactly_the_listed_length");
   __CPROVER_assert(RG_STARTS2(&s, &u) == (ans[1][0] && ans[2][1]), "[C11] POST range_starts_with_accepts_exactly_prefix_matches");
   __CPROVER_assert(RG_ENDS2(&e, &u) == (ans[1][1] && ans[2][2]), "[C11] POST range_ends_with_accepts_exactly_suffix_matches");
   __CPROVER_assert(0, "REACH! r_starts_ends"); }
